@@ -232,6 +232,7 @@ def run_trace_shard(module, shard_path, workdir, deque=False, timeout=900, extra
     return out
 
 
+LAST_INFOS = []          # INFO tuples (e.g. MODEL-DRIFT) of the last validate_events call
 _verdict = re.compile(r'<<"VERDICT", (\d+), "([^"]*)", \{(.*)\}>>$')
 _pair = re.compile(r'<<"(C\d+)", "([^"]+)">>')
 
@@ -275,6 +276,7 @@ def validate_events(module, events, name, shards=None, deque=False, boundary=Non
     verdicts = []
     states = trans = 0
     t = time.time()
+    LAST_INFOS.clear()
     with cf.ThreadPoolExecutor(max_workers=MAX_JVMS) as ex:
         futs = {ex.submit(run_trace_shard, module, p, w, deque): s for (s, p, w) in jobs}
         for fu in cf.as_completed(futs):
@@ -286,6 +288,11 @@ def validate_events(module, events, name, shards=None, deque=False, boundary=Non
             for tup in collect_tuples(out):
                 if tup.startswith('<<"TRACE-NOT-CONSUMED"'):
                     raise ToolError(f"trace shard {s} not consumed: {tup}")
+                if tup.startswith('<<"INFO"'):
+                    mi = re.match(r'<<"INFO", "([^"]+)", (\d+), "([^"]*)">>', tup)
+                    if mi:
+                        LAST_INFOS.append({"kind": mi.group(1), "index": offsets[s] + int(mi.group(2)) - 1, "what": mi.group(3)})
+                    continue
                 m = _verdict.match(tup)
                 if tup.startswith('<<"VERDICT"'):
                     if not m:
